@@ -167,3 +167,45 @@ class DB:
             if d.fallback:
                 return d
         return None
+
+
+def sample_payload(d, variant=0):
+    """A concrete payload (bytes, little-endian bit numbering as on the wire) for definition d: match fields carry
+    their match value, every other fixed-position field a small in-range raw value depending on `variant`; a
+    definition with a variable-length or position-less field gets the fixed prefix only.  Used by native batteries
+    (bounded stand-ins), never by proofs."""
+    n = 0
+    end = 0
+    for f in d.fields:
+        if f.L is None or f.offset_bits is None or f.variable:
+            break
+        if f.match is not None:
+            raw = int(f.match)
+        elif f.type in ('RESERVED', 'SPARE'):
+            raw = (1 << f.L) - 1
+        elif f.type in ('STRING_FIX',):
+            raw = int.from_bytes((b'AB' * f.L)[:f.L // 8], 'little') if f.L % 8 == 0 else 0
+        elif f.type in ('NUMBER', 'DURATION', 'TIME', 'DATE', 'MMSI', 'PGN', 'ISO_NAME', 'DYNAMIC_FIELD_KEY', 'FIELD_INDEX'):
+            rr = f.raw_range() if f.type == 'NUMBER' else None
+            lo, hi = rr if rr else (0, (1 << max(f.L - 2, 1)) - 1)
+            raw = lo + (3 + 7 * variant) % max(hi - lo, 1) if hi > lo else lo
+            if raw < 0:
+                raw += 1 << f.L
+        elif f.type in ('LOOKUP', 'INDIRECT_LOOKUP', 'BITLOOKUP', 'FIELDTYPE_LOOKUP'):
+            raw = variant % 2
+        elif f.type in ('FLOAT',):
+            import struct
+            raw = int.from_bytes(struct.pack('<f', 1.5 + variant), 'little') if f.L == 32 else 0
+        else:
+            raw = 0
+        n |= (raw & ((1 << f.L) - 1)) << f.offset_bits
+        end = max(end, f.offset_bits + f.L)
+    nbytes = max((end + 7) // 8, d.length if isinstance(d.length, int) and d.length <= 223 and d.first_unsupported is None and all(f.L is not None and not f.variable for f in d.fields) else 0)
+    nbytes = max(nbytes, 1)
+    return n.to_bytes(nbytes, 'little')
+
+
+def sample_line(d, variant=0, src=9, dst=255, prio=3):
+    """canboat plain-text line (whole message) for sample_payload(d)."""
+    p = sample_payload(d, variant)
+    return f"2022-09-28-11:36:59.668,{prio},{d.pgn},{src},{dst},{len(p)}," + ','.join(f'{b:02x}' for b in p)
